@@ -168,13 +168,19 @@ def builtin_table(repo, cg):
                 st.effects.append(('register', e, args, kw))
                 return [(st, Const(None))]
             return SymEx.apply(self, e, f, args, kw, st, func)
-    for f in cg.reachable([init], with_refs=False, include_nested=False):
-        if f.cls is not yp or f is reg:
-            continue
-        if not any(reg in callees and is_self_attr(n.func, 'register_function') for n, callees in cg.calls.get(f, ())):
-            continue
+    direct = [f for f in cg.reachable([init], with_refs=False, include_nested=False) if f.cls is yp and f is not reg and
+              any(reg in callees and is_self_attr(n.func, 'register_function') for n, callees in cg.calls.get(f, ()))]
+    helpers = set()
+    if not direct:
+        # the registrations sit in module-level helpers that are handed the engine: the engine methods that reach them
+        # (from the constructor) are evaluated with those helpers pasted in
+        reaching = {g for g in repo.all_functions(('engine',)) if g is not reg and reg in cg.reachable([g], with_refs=False, include_nested=False)}
+        helpers = {g for g in reaching if g.cls is None}
+        tops = [f for f in cg.callees(init, with_refs=False) if f in reaching and f.cls is yp]
+        direct = tops or ([init] if init in reaching else [])
+    for f in direct:
         # the set-up function is evaluated by the checker: its register_function calls with their argument values
-        sx = Collect(repo, inline=lambda g: False, opaque=lambda n: False, max_depth=2)
+        sx = Collect(repo, inline=lambda g: g in helpers, opaque=lambda n: False, max_depth=4)
         sx.max_steps = 20000
         try:
             paths = sx.run(f, [Sym(p) for p in f.params[1:]], PathState())
